@@ -262,6 +262,9 @@ func errResultIndex(fn *ssa.Function) int {
 func Returns(fn *ssa.Function) []*ssa.Return {
 	var out []*ssa.Return
 	for _, b := range fn.Blocks {
+		if b == fn.Recover {
+			continue // reached only after a recovered panic
+		}
 		if r, ok := lastInstr(b).(*ssa.Return); ok {
 			out = append(out, r)
 		}
@@ -363,21 +366,42 @@ func (e *Engine) ClassifyReturn(r *ssa.Return) retClass {
 	}
 	v := r.Results[i]
 	// named results spilled to a cell (functions with defer+recover or
-	// closures capturing the result): find the store that reaches the load.
+	// closures capturing the result): classify the stores that reach the load.
 	if u, ok := v.(*ssa.UnOp); ok && u.Op == token.MUL {
 		if a, ok := u.X.(*ssa.Alloc); ok {
-			if st := reachingStoreInBlock(a, u); st != nil {
-				return e.nilnessAt(st.Val, st)
+			sts := reachingStores(a, u)
+			if len(sts) == 0 {
+				return retNilErr // zero value of the result
 			}
-			// single-predecessor chain: look upwards while blocks have one pred
-			b := u.Block()
-			for len(b.Preds) == 1 {
-				b = b.Preds[0]
-				if st := lastStoreInBlock(a, b); st != nil {
-					return e.nilnessAt(st.Val, st)
+			cls := retClass(-1)
+			for _, st := range sts {
+				val := st.Val
+				c := retUnknown
+				// `return x, y, err` re-stores the cell's own value: look one level further
+				if u2, ok := val.(*ssa.UnOp); ok && u2.Op == token.MUL && u2.X == a {
+					inner := reachingStores(a, u2)
+					c = retClass(-1)
+					for _, st2 := range inner {
+						c2 := e.nilnessAt(st2.Val, st2)
+						if c == -1 {
+							c = c2
+						} else if c != c2 {
+							c = retUnknown
+						}
+					}
+					if c == -1 {
+						c = retNilErr
+					}
+				} else {
+					c = e.nilnessAt(val, st)
+				}
+				if cls == -1 {
+					cls = c
+				} else if cls != c {
+					return retUnknown
 				}
 			}
-			return retUnknown
+			return cls
 		}
 	}
 	return e.nilnessAt(v, r)
@@ -454,10 +478,8 @@ func Origins(v ssa.Value, visit func(ssa.Value) bool) {
 		case *ssa.UnOp:
 			if x.Op == token.MUL {
 				if a, ok := x.X.(*ssa.Alloc); ok {
-					for _, r := range *a.Referrers() {
-						if st, ok := r.(*ssa.Store); ok && st.Addr == a {
-							walk(st.Val, d+1)
-						}
+					for _, st := range reachingStores(a, x) {
+						walk(st.Val, d+1)
 					}
 				}
 				if fv, ok := x.X.(*ssa.FreeVar); ok {
@@ -608,4 +630,171 @@ func dominatesInstr(a, b ssa.Instruction) bool {
 		return instrIndex(a) < instrIndex(b)
 	}
 	return a.Block().Dominates(b.Block())
+}
+
+// retValue resolves result #i of a return, looking through the spill of
+// named results into a cell (store; rundefers; load; return).
+func retValue(r *ssa.Return, i int) ssa.Value {
+	if i < 0 || i >= len(r.Results) {
+		return nil
+	}
+	v := r.Results[i]
+	for d := 0; d < 4; d++ {
+		u, ok := v.(*ssa.UnOp)
+		if !ok || u.Op != token.MUL {
+			break
+		}
+		a, ok := u.X.(*ssa.Alloc)
+		if !ok {
+			break
+		}
+		sts := reachingStores(a, u)
+		if len(sts) != 1 {
+			break // Origins() expands the alternatives
+		}
+		v = sts[0].Val
+	}
+	return v
+}
+
+type condFact struct {
+	Cond ssa.Value
+	Val  bool
+}
+
+// dominatingConds lists the branch conditions known to hold when control is
+// at the start of block b: for every dominator d ending in `if c`, if b is
+// dominated by d's true (false) successor and that successor is entered only
+// from d, then c is true (false).
+func dominatingConds(b *ssa.BasicBlock) []condFact {
+	var out []condFact
+	for x := b; x != nil; x = x.Idom() {
+		d := x.Idom()
+		if d == nil {
+			break
+		}
+		ifi, ok := lastInstr(d).(*ssa.If)
+		if !ok {
+			continue
+		}
+		if len(x.Preds) != 1 || x.Preds[0] != d {
+			continue
+		}
+		if d.Succs[0] == x && d.Succs[1] != x {
+			out = append(out, flattenCond(ifi.Cond, true)...)
+		} else if d.Succs[1] == x && d.Succs[0] != x {
+			out = append(out, flattenCond(ifi.Cond, false)...)
+		}
+	}
+	return out
+}
+
+// flattenCond strips negations.
+func flattenCond(c ssa.Value, val bool) []condFact {
+	for {
+		u, ok := c.(*ssa.UnOp)
+		if !ok || u.Op != token.NOT {
+			break
+		}
+		c, val = u.X, !val
+	}
+	return []condFact{{c, val}}
+}
+
+// reachableBlock: is block b reachable from entry under the assumption?
+func reachableBlock(fn *ssa.Function, b *ssa.BasicBlock, a Assumption) bool {
+	if len(b.Instrs) == 0 {
+		return true
+	}
+	first := b.Instrs[0]
+	if b == fn.Blocks[0] {
+		return true
+	}
+	return FindPath(PathQuery{Fn: fn, Assume: a, Target: func(in ssa.Instruction) bool { return in == first }}) != nil
+}
+
+// OriginsUnder is Origins restricted to phi edges whose predecessor block is
+// reachable under the assumption and whose edge into the phi's block is
+// feasible.
+func OriginsUnder(fn *ssa.Function, v ssa.Value, a Assumption, visit func(ssa.Value) bool) {
+	seen := map[ssa.Value]bool{}
+	var walk func(ssa.Value, int)
+	walk = func(v ssa.Value, d int) {
+		if v == nil || seen[v] || d > 40 {
+			return
+		}
+		seen[v] = true
+		if visit(v) {
+			return
+		}
+		switch x := v.(type) {
+		case *ssa.Phi:
+			for i, ed := range x.Edges {
+				pred := x.Block().Preds[i]
+				if !edgeFeasible(pred, x.Block(), a, 0) || !reachableBlock(fn, pred, a) {
+					continue
+				}
+				walk(ed, d+1)
+			}
+		case *ssa.ChangeType:
+			walk(x.X, d+1)
+		case *ssa.Convert:
+			walk(x.X, d+1)
+		case *ssa.MakeInterface:
+			walk(x.X, d+1)
+		}
+	}
+	walk(v, 0)
+}
+
+// reachingStores returns the stores to local cell a that may reach the
+// instruction `at` (flow-sensitive reaching definitions for one cell). If a
+// closure may write the cell, every store is returned (flow-insensitive).
+func reachingStores(a *ssa.Alloc, at ssa.Instruction) []*ssa.Store {
+	var all []*ssa.Store
+	for _, r := range *a.Referrers() {
+		if st, ok := r.(*ssa.Store); ok && st.Addr == a {
+			all = append(all, st)
+		}
+	}
+	if cellWrittenInClosures(a) || at == nil || at.Block() == nil {
+		return all
+	}
+	isStore := map[ssa.Instruction]*ssa.Store{}
+	for _, st := range all {
+		isStore[st] = st
+	}
+	var out []*ssa.Store
+	seenOut := map[*ssa.Store]bool{}
+	visited := map[*ssa.BasicBlock]bool{}
+	type pos struct {
+		b   *ssa.BasicBlock
+		idx int // scan instructions idx-1 … 0
+	}
+	work := []pos{{at.Block(), instrIndex(at)}}
+	for len(work) > 0 {
+		p := work[len(work)-1]
+		work = work[:len(work)-1]
+		found := false
+		for i := p.idx - 1; i >= 0; i-- {
+			if st, ok := isStore[p.b.Instrs[i]]; ok {
+				if !seenOut[st] {
+					seenOut[st] = true
+					out = append(out, st)
+				}
+				found = true
+				break
+			}
+		}
+		if found {
+			continue
+		}
+		for _, pr := range p.b.Preds {
+			if !visited[pr] {
+				visited[pr] = true
+				work = append(work, pos{pr, len(pr.Instrs)})
+			}
+		}
+	}
+	return out
 }
